@@ -24,11 +24,11 @@ Definition delta (before after : mem) : list Z :=
 Definition obs_of (before : mem) (s : ystate) (r : result) : chunk_obs :=
   let '(c, v) := status r in (c, v, delta before (ymem s)).
 
-Fixpoint y_trace (step : ystate -> chunk -> ystate * result) (s : ystate) (cs : list chunk) : ystate * list chunk_obs :=
-  match cs with
+Fixpoint y_trace (s : ystate) (l : list step) : ystate * list chunk_obs :=
+  match l with
   | [] => (s, [])
-  | c :: r => let '(s1, r1) := step s c in
-              let '(s2, os) := y_trace step s1 r in (s2, obs_of (ymem s) s1 r1 :: os)
+  | st :: r => let '(s1, r1) := y_step fuel0 s st in
+               let '(s2, os) := y_trace s1 r in (s2, obs_of (ymem s) s1 r1 :: os)
   end.
 
 Fixpoint y_trace_exec (s : ystate) (ps : list (option program * result)) : ystate * list chunk_obs :=
@@ -39,13 +39,13 @@ Fixpoint y_trace_exec (s : ystate) (ps : list (option program * result)) : ystat
   | (None, e) :: r => let '(s2, os) := y_trace_exec s r in (s2, obs_of (ymem s) s e :: os)
   end.
 
-(** entry points: 0 Eval, 1 Compile+Execute, 2 CompileAST+Execute, 3 EvalPath file by file,
-    4 Compile all then Execute all *)
-Definition y_session (mode : N) (cs : list chunk) : ystate * list chunk_obs :=
+(** a session is a list of steps (unnamed source: Eval, Compile+Execute or CompileAST; named file:
+    EvalPath on disk or on a MapFS; directory); mode 4: the unnamed chunks are all compiled first
+    and executed afterwards *)
+Definition y_session (mode : N) (l : list step) : ystate * list chunk_obs :=
   match mode with
-  | 4 => let '(s1, ps) := y_compile_all y0 cs in y_trace_exec s1 ps
-  | 1 | 2 => y_trace (y_compile_execute fuel0) y0 cs
-  | _ => y_trace (y_eval fuel0) y0 cs
+  | 4 => let '(s1, ps) := y_compile_all y0 (map step_chunk l) in y_trace_exec s1 ps
+  | _ => y_trace y0 l
   end.
 
 Definition final_of (m : mem) (vars ptrs : list N) : final_obs :=
@@ -74,7 +74,7 @@ Definition final_eqb (a b : final_obs) : bool :=
     observed session, observed final state;
     chunks of the reference run, reference output, reference final state *)
 Definition sess_case :=
-  (N * N * list chunk * list N * list N * list chunk_obs * final_obs * list chunk * list Z * final_obs)%type.
+  (N * N * list step * list N * list N * list chunk_obs * final_obs * list chunk * list Z * final_obs)%type.
 
 Definition sess_mis_y (cs : list sess_case) : list N :=
   flat_map (fun '(id, mode, chunks, vs, ps, obs, fin, _, _, _) =>
